@@ -86,8 +86,89 @@ fn eval_pure(req: &str) -> ImplOut {
                 Err(_) => ImplOut::new("err".into()).tag("to:err").trivial(),
             }
         }
+        "fmt" => eval_fmt(f[2].parse().unwrap()),
         _ => ImplOut::new("bad-request".into()),
     }
+}
+
+/// every date token of the number-format language, one rendering per token plus composite layouts
+const FMT_TOKENS: [&str; 11] = ["d", "dd", "ddd", "dddd", "m", "mm", "mmm", "mmmm", "mmmmm", "yy", "yyyy"];
+const FMT_LAYOUTS: [&str; 5] = ["dd/mm/yyyy", "d/m/yy", "mm-dd-yy", "d-mmm-yyyy", "dddd, mmmm d, yyyy"];
+
+fn gen_fmt(ctx: &Ctx, sink: &mut dyn FnMut(String)) {
+    for s in [0i64, MAX + 1] {
+        sink(format!("c21 fmt {s}"));
+    }
+    if ctx.tier == Tier::Thorough {
+        for s in 1..=MAX {
+            sink(format!("c21 fmt {s}"));
+        }
+        return;
+    }
+    // quick: every day of 1899..=1910, 1999..=2010, 9990..=9999 (all two-digit-year classes incl. 00..09,
+    // all months, all weekdays), then a seed-shifted stride of 11 over the whole range
+    let mut seen = std::collections::BTreeSet::new();
+    for s in 1..=4_020 {
+        seen.insert(s as i64);
+    }
+    for s in 36_161..=40_543 {
+        seen.insert(s as i64);
+    }
+    for s in MAX - 3_660..=MAX {
+        seen.insert(s);
+    }
+    let mut s = (ctx.seed % 11) as i64 + 1;
+    while s <= MAX {
+        seen.insert(s);
+        s += 11;
+    }
+    for s in seen {
+        sink(format!("c21 fmt {s}"));
+    }
+}
+
+fn eval_fmt(s: i64) -> ImplOut {
+    let locale = get_locale("en").unwrap();
+    let mut parts: Vec<String> = vec![];
+    for f in FMT_TOKENS.iter().chain(FMT_LAYOUTS.iter()) {
+        let r = format_number(s as f64, f, locale);
+        parts.push(if r.error.is_some() { format!("E:{}", r.text) } else { r.text });
+    }
+    let mut out = ImplOut::new(parts.join("|"));
+    // oracle: every rendering agrees with the calendar date of the serial (from_excel_date)
+    match from_excel_date(s) {
+        Ok(d) => {
+            out = out.tag("fmt:in-range");
+            let (y, m, dd) = (d.year(), d.month(), d.day());
+            let want = [
+                format!("{dd}"),
+                format!("{dd:02}"),
+                String::new(),
+                String::new(),
+                format!("{m}"),
+                format!("{m:02}"),
+                String::new(),
+                String::new(),
+                String::new(),
+                format!("{:02}", y % 100),
+                format!("{y}"),
+                format!("{dd:02}/{m:02}/{y}"),
+                format!("{dd}/{m}/{:02}", y % 100),
+                format!("{m:02}-{dd:02}-{:02}", y % 100),
+            ];
+            for (i, w) in want.iter().enumerate() {
+                if !w.is_empty() && &parts[i] != w {
+                    let f = FMT_TOKENS.iter().chain(FMT_LAYOUTS.iter()).nth(i).unwrap();
+                    out = out.fail(
+                        "c21:format-disagrees",
+                        &format!("serial {s} ({y}-{m}-{dd}) with format {f}: {} vs {w}", parts[i]),
+                    );
+                }
+            }
+        }
+        Err(_) => out = out.tag("fmt:out-of-range"),
+    }
+    out
 }
 
 thread_local! {
@@ -203,6 +284,14 @@ pub fn suites() -> Vec<Suite> {
             gen: gen_pure,
             eval: eval_pure,
             exhaustive: always,
+        },
+        Suite {
+            name: "c21-fmt",
+            rule: "format_number(serial, f) for each date token f in d dd ddd dddd m mm mmm mmmm mmmmm yy yyyy and 5 composite layouts (en locale), compared with the Lean layout model and with the calendar date of the serial; quick: every day of 1899-1910, 1999-2010, 9990-9999 and a seed-shifted stride of 11; thorough: every serial 0..=2958466; non-trivial = serial in range (distinct serials)",
+            modelled: true,
+            gen: gen_fmt,
+            eval: eval_pure,
+            exhaustive: thorough_only,
         },
         Suite {
             name: "c21-engine",
